@@ -346,12 +346,74 @@ func main() {
 		}()
 		wg.Wait()
 	}
+	// the lease store of a group is the first address of the (standalone, several sources) input.  Instance a holds the lease
+	// there; instance b starts while its path to that address is down (its second address answers): it must not be told leader
+	// by whatever it finds elsewhere
+	nSplit := 0
+	if *shard == 1%*shards {
+		srv.Lock()
+		srv.DBs = map[int]fakeredis.DB{}
+		srv.NowMs = 1_000_000
+		mode = ""
+		srv.Unlock()
+		srv2 := fakeredis.New()
+		srv2.Eval = fakeredis.LuaEval
+		if _, err := srv2.Start(); err != nil {
+			hx.Fatal("%v", err)
+		}
+		deadLn, err := hx.Listen()
+		if err != nil {
+			hx.Fatal("%v", err)
+		}
+		deadAddr := deadLn.Addr().String()
+		deadLn.Close()
+		cfgA := config.RedisConfig{Addresses: []string{srv.Addr(), srv2.Addr()}, Type: config.RedisTypeStandalone, Otype: config.RedisTypeStandalone}
+		cfgB := config.RedisConfig{Addresses: []string{deadAddr, srv2.Addr()}, Type: config.RedisTypeStandalone, Otype: config.RedisTypeStandalone}
+		clA, err := cluster.NewRedisCluster(ctx, cfgA, *ttl)
+		if err != nil {
+			hx.Fatal("split phase: NewRedisCluster(a): %v", err)
+		}
+		keyS := key + "S/"
+		ea := clA.NewElection(ctx, keyS, longID["a"])
+		if r, err := ea.Campaign(ctx); err != nil || r != cluster.RoleLeader {
+			hx.Fatal("split phase: a does not get the lease: %v %v", r, err)
+		}
+		tid += *shards
+		tr.Emit(map[string]interface{}{"ev": "Reset", "id": tid, "ttl": *ttl})
+		for n := 0; n < 3; n++ {
+			res := "nostart"
+			if clB, err := cluster.NewRedisCluster(ctx, cfgB, *ttl); err == nil {
+				res = "follower"
+				if r, err := clB.NewElection(ctx, keyS, longID["b"]).Campaign(ctx); err != nil {
+					res = "err"
+				} else if r == cluster.RoleLeader {
+					res = "leader"
+				}
+				clB.Close()
+			}
+			holder := "none"
+			if v := srv.Get(0, keyS); v != nil {
+				holder = short[string(v.Str)]
+			}
+			want := res
+			if res == "leader" {
+				want = "nostart"
+			}
+			nSplit++
+			tr.Emit(map[string]interface{}{"ev": "Conc", "shard": "split", "i": "b", "op": "campaign", "res": res, "want": want, "holder": holder})
+			if err := ea.Renew(ctx); err != nil {
+				hx.Fatal("split phase: a cannot renew on the group's store: %v", err)
+			}
+		}
+		clA.Close()
+		srv2.Close()
+	}
 	if len(srv.LuaErrors) > 0 {
 		hx.Fatal("the lease store could not interpret a script: %v", srv.LuaErrors[0])
 	}
 	if err := tr.Close(); err != nil {
 		hx.Fatal("%v", err)
 	}
-	hx.WriteJSON(*statsPath, map[string]interface{}{"sequences": nSeq, "calls": nOps, "concurrent_calls": nConc, "samples": samples})
+	hx.WriteJSON(*statsPath, map[string]interface{}{"sequences": nSeq, "calls": nOps, "concurrent_calls": nConc, "split_store_starts": nSplit, "samples": samples})
 	fmt.Fprintf(os.Stderr, "leasedrv: %d sequences, %d calls\n", nSeq, nOps)
 }
